@@ -289,13 +289,31 @@ fn random_history(t: &mut Tape, gates: &Gates) -> Vec<Note> {
             let mut st = Tape::new(&sub);
             let unit = gen_unit(&mut st, gates, &p);
             let kinds: Vec<FaultKind> = ALL_FAULTS.iter().copied().filter(|k| unit.sites[k.index()] > 0).collect();
+            // canonical spelling, or (a third) with comments - also non-ASCII ones in front of the
+            // diagnostic on its line -, tabs and CRLF; identifiers keep their case
+            let wild = t.ratio(1, 3);
+            let spell = |u: &Unit, t: &mut Tape| -> String {
+                if !wild {
+                    return spell_unit(u, gates);
+                }
+                let mut pr = crate::printer::Printer::new(gates, Tape::empty());
+                pr.library(&u.lib);
+                let lex = pr.finish();
+                gates.take_hits();
+                let mut o = crate::props::c08::opts_for(gates);
+                o.ident_case = false;
+                o.oscat_phase.set(255);
+                let bytes: Vec<u8> = (0..160).map(|_| t.byte()).collect();
+                crate::lexeme::layout(&lex, &o, &mut Tape::new(&bytes)).0.text
+            };
             let text = if !kinds.is_empty() && t.flag() {
                 let kd = kinds[t.below(kinds.len())];
                 let s = t.below(unit.sites[kd.index()]);
                 let mut st2 = Tape::new(&sub);
-                spell_unit(&gen_unit_with(&mut st2, gates, &p, Some((kd, s))), gates)
+                let fu = gen_unit_with(&mut st2, gates, &p, Some((kd, s)));
+                spell(&fu, t)
             } else {
-                spell_unit(&unit, gates)
+                spell(&unit, t)
             };
             let text = match t.below(8) {
                 0 => text.replacen(';', " ", 1),
@@ -403,7 +421,7 @@ pub fn run(ctx: &Ctx) -> i32 {
     rep.assumptions = vec![
         "diagnostics are compared as multisets (file order inside the project is hash seeded)".into(),
         "P0030 (set-level diagnostic without a file) is excluded on both sides".into(),
-        "documents are ASCII, so character, UTF-16 and byte columns coincide".into(),
+        "start positions are compared in characters (the unit of `ironplcc check`); a third of the random documents carry non-ASCII comments, characters beyond the BMP included only in comments that follow the diagnostic".into(),
     ];
     rep.wall_s = clock.secs();
     rep.finish()
